@@ -4,7 +4,8 @@
    and build/mod.rs generate_bindings (lines 201-277): no commands => return; force or cache miss =>
    write the files in order, then the cache record (a failing record write is only a warning);
    cache hit => return. needs_regeneration (generation_cache.rs:84-111) = load / parse / version /
-   compare combined_hash, with no look at the output files (check_presence = false). *)
+   compare combined_hash; since C08-9-presence-test-in-callers both callers also test that the files of the
+   plan exist (GenerationCache::outputs_present) before answering up to date (check_presence = true). *)
 From Coq Require Import List Arith Bool.
 Require Import TT.Model.Str TT.Model.C08Fingerprint.
 Import ListNotations.
@@ -17,7 +18,7 @@ Section Run.
   Variable gfp : schedT -> proj -> cfg -> fpT.
   Variable ghas_commands : proj -> bool.
   Variable cfg_force : cfg -> bool.        (* force: true in the configuration file *)
-  Variable check_presence : bool.          (* false = faithful to the pinned code, true = repaired *)
+  Variable check_presence : bool.          (* true = the code since C08-9-presence-test-in-callers; false = before *)
 
   Record state := { s_src : proj; s_cfg : cfg; s_out : fnameT -> option content; s_cache : option fpT }.
 
@@ -118,43 +119,23 @@ Definition cache_hit_c (presence : bool) : sched -> cstate -> bool :=
 Definition init_state (p : project) (c : config) : cstate :=
   {| s_src := p; s_cfg := c; s_out := fun _ => None; s_cache := None |}.
 
-(* ---- recorded classes (known findings), as narrow as the defect ----
-   6: the discovered events differ, 8: the command line numbers differ while visualize_deps is on -
-      between the generation the record stems from and the current inputs, while the fingerprints agree
-      (neither is part of any hash);
-   9: a file the record vouches for is missing (needs_regeneration never looks at the files).
-   (1..5 and 7 were repaired by C08-C14-hash-inputs: those data are hashed now.) *)
+(* ---- recorded class (known finding) ----
+   8: the command line numbers differ while visualize_deps is on between the generation the record stems
+      from and the current inputs, while the fingerprints agree (line_number is not part of any hash).
+   (1..5, 7 repaired by C08-C14-hash-inputs; 6 events by C08-6-events-in-cache; 9 lost file by
+    C08-9-presence-test-in-callers: the callers test for the files of the plan before answering up to date.) *)
 Definition kf_C08_unhashed (w : sched) (st : cstate) (g : cgen) : list nat :=
   let '(w0, p0, c0) := g in
   if tree_eqb (fp w0 p0 c0) (fp w (s_src st) (s_cfg st))
-  then (if tree_eqb (u_events (analyse w0 p0)) (u_events (analyse w (s_src st))) then [] else [6]) ++
-       (if tree_eqb (u_lines (analyse w0 p0) c0) (u_lines (analyse w (s_src st)) (s_cfg st)) then [] else [8])
+  then (if tree_eqb (u_lines (analyse w0 p0) c0) (u_lines (analyse w (s_src st)) (s_cfg st)) then [] else [8])
   else [].
-
-Definition kf_C08_file_loss (st : cstate) (g : cgen) : list nat :=
-  let '(w0, p0, c0) := g in
-  if forallb (fun fx => match s_out st (fst fx) with Some _ => true | None => false end) (files w0 p0 c0)
-  then [] else [9].
 
 (* classes of the final non-forced run of a history: empty unless that run is a cache hit *)
 Definition kf_C08 (w : sched) (sg : cstate * option cgen) : list nat :=
   let (st, g) := sg in
-  if has_commands (s_src st) && negb (g_force (s_cfg st)) && cache_hit_c false w st then
-    match g with Some g0 => kf_C08_unhashed w st g0 ++ kf_C08_file_loss st g0 | None => [] end
+  if has_commands (s_src st) && negb (g_force (s_cfg st)) && cache_hit_c true w st then
+    match g with Some g0 => kf_C08_unhashed w st g0 | None => [] end
   else [].
-
-(* C14: the two runs differ only in how the project path is spelled (./src-tauri, src-tauri, absolute):
-   file_path, which follows the spelling, is part of hash_commands / hash_structs *)
-Definition erase_cmd (k : command) : command :=
-  {| c_name := c_name k; c_file := []; c_line := c_line k; c_params := c_params k; c_ret := c_ret k;
-     c_async := c_async k; c_chans := c_chans k; c_rename_all := c_rename_all k |}.
-Definition erase_struct (s : struct) : struct :=
-  {| s_name := s_name s; s_file := []; s_enum := s_enum s; s_fields := s_fields s; s_rename_all := s_rename_all s |}.
-Definition erase_paths (p : project) : project :=
-  map (fun f => {| sf_path := []; sf_cmds := map erase_cmd (sf_cmds f); sf_structs := map erase_struct (sf_structs f);
-                   sf_events := sf_events f |}) p.
-Definition kf_C14_path (w : sched) (p1 p2 : project) (c : config) : bool :=
-  negb (tree_eqb (fp w p1 c) (fp w p2 c)) && tree_eqb (fp w (erase_paths p1) c) (fp w (erase_paths p2) c).
 
 (* ---- observations compared with the real tool ---- *)
 Definition stale (w : sched) (st : cstate) : list fname * list fname :=
